@@ -193,6 +193,17 @@ CHECKS = {
          "feature to be identical event by event."),
    note="Trusted: TLC, the operation table tools/gen_c20.py (an operation missing from it is not covered), harness chain.rs.",
    ref="5 (C20)"),
+ "C07": dict(
+   technique="one TLA+ specification replayed in every build (SSE2 debug/release, scalar-math, core-simd, +fma/+avx2), plus TLC two-trace validation of recorded executions: bit-identical across CPU features (Trace_SameBits), within re-association slack SIMD vs scalar (Trace_Near)",
+   text=("The exact-lattice behaviours of MC_C01 (element-wise API incl. fma-sensitive mul_add points), MC_C03 (matrices, affine) and MC_C04 "
+         "(quaternions) are replayed in default SSE2, scalar-math, core-simd, SSE2 release and +fma,+avx2 builds: every build must equal the "
+         "one specification, hence each other (bit for bit, which on the lattice is also the 'no FMA slips in' claim). TLC-simulated chains "
+         "of up to 8 operations over the SIMD-backed types from off-lattice seeds, and the two-step programs of MC_C08, are executed with "
+         "identical seeds in each build and recorded; spec/Trace_SameBits.tla requires the +fma,+avx2 (and target-cpu=native in thorough) "
+         "trace to equal the baseline trace event by event, and spec/Trace_Near.tla requires the scalar-math and core-simd traces to "
+         "agree with the SSE2 trace within 2^-13 + 2^-12 relative (Q14)."),
+   note="Trusted: TLC, harness chain.rs/hid.rs digests. SIMD-vs-scalar agreement off the lattice only to the Q14 tolerance, not the analytic bound. NEON/wasm32 not executable.",
+   ref="5 (C07)"),
 }
 
 PENDING = {}
